@@ -113,3 +113,11 @@ plan("C11", [("lifecycle", 10, 70), ("slash", 6, 40)],
           "in the first block at/after it; after removal every protocol-state prefix is gone, the channel is CLOSED and only descriptive records remain; "
           "stops by owner, by timed-out packets (starved relayer, several in flight) and by send failure after the consumer closed its channel end; "
           "distinct = (cause, repeated stops, removal offset class)")
+
+plan("C17", [("valset", 6, 40), ("lifecycle", 4, 30)], tests=["TestC17Handshake"],
+     minobs={"handshake-attempts": 12, "handshake-attempts-rejected": 12, "honest-handshake-completed": 6, "bindings-checked": 500},
+     rule="directed handshake matrix against real provider and consumer apps: channel ends with a single deviation (unordered, counterparty port, version, hops, unbound "
+          "client, provider-initiated, combined) are committed on a malicious consumer and presented to the provider with genuine proofs; honest handshakes must complete; "
+          "repetition after success must fail; consumer-side deviations and a channel over a foreign client must be refused by the consumer; a second consumer naming the "
+          "connection of a launched one; plus, after every provider block of every world, the four binding maps read from the raw store must be mutual inverses and every "
+          "CCV channel must sit on its consumer's client; distinct = attempt kind, standing map sizes")
